@@ -155,6 +155,14 @@ def spoil(v, depth=0):
     elif isinstance(v, tuple) and depth < 3:
         for x in v:
             spoil(x, depth + 1)
+    elif type(v).__name__ == "URI" and hasattr(v, "protocol"):
+        # a uri object handed out by the server belongs to the caller: it may re-point it (the daemon's NAT rewriting does the same)
+        try:
+            v.object = "~spoiled~"
+            if v.host is not None and not v.sockname:
+                v.host, v.port = "spoiled.invalid", 1
+        except Exception:
+            pass
 
 
 def done(result, *args):
